@@ -26,7 +26,8 @@ Print Assumptions c14_flush_keeps_frags.
    mstream_tree = every marker and character of the tree in document order; mstream_min = the same minus the markers that trail
    the content of a nested block (those may be dropped: their elements have no visible content behind them);
    msub a b = a is b with only markers deleted.  Overflow off: with overflow on a marker directly after a character wider
-   than the block is lost (Example marker_lost_after_overflowing_char). *)
+   than the block, followed by white space, is lost (Example marker_lost_after_overflowing_char_and_space; the shape without the
+   white space was repaired, Example marker_kept_after_overflowing_char). *)
 From H2T Require Import Sub Dom Render Api Proofs.Conserve Proofs.WrapInv Proofs.RenderWidth Proofs.Footnotes Proofs.RenderConserve Proofs.FragStream.
 Theorem c14_render_node_no_table :
   forall (d : deco) (mw : N) (n : rnode) (st st' : rstate) (s : subr) (rest : list subr),
